@@ -54,3 +54,17 @@ package client
 //@   ensures no-false-success: !ghost.rm_err_nil ==> ghost.sent == 0 && result != nil
 //@   ensures truthful-nil: result == nil ==> ghost.sent == 1 && ghost.sent_err_nil
 //@   ensures frame: wrote_nothing()
+
+// C14: a response completes only the future registered under its own id and removes only that entry.
+//@ func (*clientOnResponseProcessor).Process
+//@   prop C14
+//@   let cl := getty.gettyRemotingClient
+//@   requires cl != nil && cl.gettyRemoting != nil && cl.gettyRemoting.futures != nil && cl.gettyRemoting.mergeMsgMap != nil
+//@   let k := some(int32, "k")
+//@   let merged := isT(rpcMessage.Body, message.MergeResultMessage)
+//@   let f := syncmapp(cl.gettyRemoting.futures)[box(rpcMessage.ID, int32)]
+//@   requires f != nil ==> isT(f, *message.MessageFuture) && f.(*message.MessageFuture) != nil
+//@   requires f != nil ==> chancap(f.(*message.MessageFuture).Done) >= 1 && chanlen(f.(*message.MessageFuture).Done) == 0
+//@   ensures correlates: !merged && f != nil ==> f.(*message.MessageFuture).Response == rpcMessage.Body && syncmapp(cl.gettyRemoting.futures)[box(rpcMessage.ID, int32)] == nil
+//@   ensures others-untouched: !merged && k != rpcMessage.ID ==> syncmapp(cl.gettyRemoting.futures)[box(k, int32)] == old(syncmapp(cl.gettyRemoting.futures)[box(k, int32)])
+//@   ensures straggler-harmless: !merged && f == nil ==> result == nil && syncmapp(cl.gettyRemoting.futures)[box(k, int32)] == old(syncmapp(cl.gettyRemoting.futures)[box(k, int32)])
